@@ -52,7 +52,7 @@ POISON_BYTES = b"\xdd\xdd\xdd"
 POISON_TEXT = [b"-2459565876494606883", b"15987178197214944733", b"3722304989", b"-572662307",
                b"DDDDDDDD", b"dddddddd"]
 FAULT_TEXT = [b"Program fault", b"Storage allocation error", b"segmentation", b"Segmentation", b"bus error",
-              b"Compiler bug", b"Bug:"]
+              b"Compiler bug", b"Bug:", b"Assertion failed"]
 HARNESS_FILES = ["btree.c", "memclim.c", "opsys.c", "util.c", "timer.c", "debug.c"]
 _uniq = itertools.count()
 
@@ -327,12 +327,21 @@ def prepare(tools, p, d, want_interp=True):
         # collection): use the interpreter without -Wcheck for this program (freed storage not poisoned)
         for rt in routes[1:]:
             runs.pop(rt, None)
+    unstable = set()
+    if p["expect_out"] is None:          # no oracle: the reference run must at least be reproducible
+        for rt in routes:
+            b2 = tools.run(rt, p, timeout=t_base)
+            if b2["out"] != runs[rt]["out"] or b2["rc"] != runs[rt]["rc"]:
+                unstable.add(rt)
     for rt in routes:
         b = runs[rt]
         if b["timeout"] or b["wall"] > 10:
             p["dropped"][rt] = "unforced run too slow (%.1fs)" % b["wall"]
             continue
-        if rt in ("interp-as", "interp-ao") and "interp-nogc" in runs:
+        if rt in unstable:
+            p["dropped"][rt] = "not reproducible (addresses, time, ... in the output)"
+            continue
+        if rt in ("interp-as", "interp-ao") and "interp-nogc" in runs and "interp-nogc" not in unstable:
             c = classify(b, runs["interp-nogc"])
             if c and agrees(p, runs["interp-nogc"]):
                 p["natural"].append((rt, "natural:" + c[0],
@@ -348,11 +357,6 @@ def prepare(tools, p, d, want_interp=True):
         if not agrees(p, b):
             p["dropped"][rt] = "unforced run disagrees with the oracle / faults (matter of C01/C03, not of collection)"
             continue
-        if p["expect_out"] is None:
-            b2 = tools.run(rt, p, timeout=t_base)
-            if b2["out"] != b["out"] or b2["rc"] != b["rc"]:
-                p["dropped"][rt] = "not reproducible"
-                continue
         p["base"][rt] = b
     if not any(rt in p["base"] for rt in ("exe", "interp-as", "interp-ao")):
         p["skip"] = "no usable route: %s" % p["dropped"]
@@ -397,6 +401,145 @@ def est_cost(p, rt, k):
     return t0 + c / k
 
 
+
+# ------------------------------------------------------------------ interactive sessions (#int gc -> fintFreeJunk + stoGc)
+
+GL_NOISE = re.compile(rb"^(Garbage collection\.\.\.|done\.|Totals:| Time .*| Store .*|\s*)$")
+GL_TIMES = re.compile(rb"Comp: *\d+ msec, Interp: *\d+ msec")
+
+
+def gloop_session(rng):
+    """One statement per line; -> (lines, expected stdout lines in order).  Python oracle for the printed lines."""
+    n, m, a = rng.randint(4, 9), rng.randint(2, 7), rng.randint(0, 20)
+    k, k2, x, n2 = rng.randint(22, 34), rng.randint(16, 22), rng.randint(2, 9), rng.randint(2, 5)
+    p1, p2 = rng.sample(["ab", "q", "xyz", "Z9", "hello "], 2)
+    la = [i * m + a for i in range(1, n + 1)]
+    lb = [F.pfact(i) for i in range(15, 15 + n2 + 1)]
+    lines = [
+        '#include "aldor"', '#include "aldorio"',
+        'import from MachineInteger, Integer, String, List MachineInteger, List Integer;',
+        'fact(n: MachineInteger): Integer == { r: Integer := 1; for i: MachineInteger in 1..n repeat r := r * (i::Integer); r }',
+        'la: List MachineInteger := [i * %d + %d for i: MachineInteger in 1..%d];' % (m, a, n),
+        'bf: Integer := fact(%d);' % k,
+        'sa: String := "%s" + "%s";' % (p1, p2),
+        'mk(k: MachineInteger): MachineInteger -> Integer == (x: MachineInteger): Integer +-> fact(k) * (x::Integer);',
+        'cl: MachineInteger -> Integer := mk(%d);' % k2,
+        'lb: List Integer := [fact(i) for i: MachineInteger in 15..%d];' % (15 + n2),
+        'la := reverse!(la);',
+        'stdout << la << newline;',
+        'stdout << bf << " " << sa << newline;',
+        'stdout << cl(%d) << " " << lb << newline;' % x,
+        'la := cons(#lb, la);',
+        'stdout << la << " " << (bf quo fact(%d)) << newline;' % (k - 2),
+    ]
+    ra = list(reversed(la))
+    exp = [F.plist(ra), "%d %s" % (F.pfact(k), p1 + p2), "%d %s" % (F.pfact(k2) * x, F.plist(lb)),
+           "%s %d" % (F.plist([len(lb)] + ra), F.pfact(k) // F.pfact(k - 2))]
+    return lines, exp
+
+
+def gloop_text(lines, gc_after):
+    out = []
+    for i, l in enumerate(lines):
+        out.append(l)
+        if i in gc_after:
+            out.append("#int gc")
+    return "\n".join(out + ["#quit", ""])
+
+
+def gloop_run(tools, text, d, sched=None, timeout=120):
+    os.makedirs(d, exist_ok=True)
+    env = dict(tools.env)
+    if sched:
+        env["ALDOR_VERIF_GC"] = "%d:%d" % sched
+    t0 = time.time()
+    p = subprocess.Popen(tools.base("aldor") + ["-gloop"], cwd=d, env=env, stdin=subprocess.PIPE,
+                         stdout=subprocess.PIPE, stderr=subprocess.PIPE, start_new_session=True)
+    try:
+        out, err = p.communicate(text.encode(), timeout=timeout)
+        to = False
+    except subprocess.TimeoutExpired:
+        try:
+            os.killpg(p.pid, signal.SIGKILL)
+        except OSError:
+            pass
+        out, err = p.communicate()
+        to = True
+    canon = b"\n".join(GL_TIMES.sub(b"Comp/Interp", l) for l in out.split(b"\n") if not GL_NOISE.match(l))
+    return {"rc": p.returncode, "out": canon, "raw": out, "err": err, "wall": time.time() - t0, "timeout": to}
+
+
+def gloop_stage(rep, tools, rng, tier, base):
+    """Interactive route: the same session with and without `#int gc' between the statements (and, in addition,
+    under forced collections).  `#int gc' runs fintFreeJunk (zero the interpreter stack) and then the collector."""
+    quick = tier == "quick"
+    n_sess = 3 if quick else 16
+    scheds = [None, (1000, rng.randrange(1000))] if quick else \
+        [None, (100, rng.randrange(100)), (333, rng.randrange(333)), (1000, rng.randrange(1000))]
+    jobs = []
+    for si in range(n_sess):
+        seed = rng.randrange(1 << 40)
+        lines, exp = gloop_session(random.Random(seed))
+        jobs.append((seed, lines, exp))
+    stats = collections.Counter()
+
+    def one(job):
+        seed, lines, exp = job
+        d = "%s/gl%d" % (base, next(_uniq))
+        ref = gloop_run(tools, gloop_text(lines, ()), d)
+        res = []
+        if ref["timeout"] or ref["rc"] != 0:
+            return job, ref, [("skip", None, None, "plain session fails: rc %s %r" % (ref["rc"], ref["err"][-200:]))]
+        got = [l for l in ref["out"].decode("utf-8", "replace").split("\n")]
+        pos = 0
+        for e in exp:                      # the printed lines, in order, among the interpreter's chatter
+            while pos < len(got) and got[pos] != e:
+                pos += 1
+            if pos == len(got):
+                return job, ref, [("skip", None, None, "plain session does not print the expected line %r" % e)]
+        allpos = tuple(range(3, len(lines)))
+        for sched in scheds:
+            r = gloop_run(tools, gloop_text(lines, allpos), d, sched=sched, timeout=300)
+            c = classify(r, ref)
+            res.append(("run", allpos, sched, c))
+            if c and c[0] != "hang":           # which single collection point is enough?
+                for i in allpos:
+                    r1 = gloop_run(tools, gloop_text(lines, (i,)), d, sched=sched, timeout=300)
+                    c1 = classify(r1, ref)
+                    if c1 and c1[0] != "hang":
+                        res.append(("run", (i,), sched, c1))
+                        break
+        return job, ref, res
+    with concurrent.futures.ThreadPoolExecutor(C.NCPU) as ex:
+        for (seed, lines, exp), ref, res in ex.map(one, jobs):
+            worst = None
+            for kind, pos, sched, c in res:
+                if kind == "skip":
+                    stats["sessions_unusable"] += 1
+                    rep.notes.append("gloop session %d unusable: %s" % (seed, c))
+                    continue
+                stats["session_runs"] += 1
+                if c:
+                    if worst is None or len(pos) < len(worst[0]):
+                        worst = (pos, sched, c)
+            if worst:
+                pos, sched, c = worst
+                text = gloop_text(lines, pos)
+                rep.violation("interactive session (aldor -gloop) %d: %s when `#int gc' follows statement(s) %s%s - %s"
+                              % (seed, {"fault": "storage fault", "output": "different transcript"}.get(c[0], c[0]),
+                                 list(pos), " under ALDOR_VERIF_GC=%d:%d" % sched if sched else "", c[1]),
+                              {"how_to_replay": ["./check C09 --replay <this file>",
+                                                 "ALDORROOT=%s/aldor LC_ALL=C %s%s -gloop < session   # versus the same session "
+                                                 "without the `#int gc' lines" % (C.RB, "ALDOR_VERIF_GC=%d:%d " % sched if sched else "",
+                                                                                   " ".join(tools.base("aldor")))],
+                               "route": "gloop", "session": text, "session_plain": gloop_text(lines, ()),
+                               "k": sched[0] if sched else 0, "j": sched[1] if sched else 0,
+                               "expected_printed_lines": exp, "reference_transcript": ref["out"].decode("utf-8", "replace")[:4000]},
+                              key="gc:gloop:%d:%s:%s" % (seed, ",".join(map(str, pos)) if len(pos) < 4 else "all",
+                                                         "%d:%d" % sched if sched else "int-gc"))
+    return dict(stats)
+
+
 # ------------------------------------------------------------------ the check
 
 def hook_sanity(rep):
@@ -438,9 +581,9 @@ def make_jobs(progs, tier, rng):
     def cheapest(rt, fam, n):
         c = [p for p in usable if rt in p.get("est", {}) and p["family"] in fam]
         return [id(p) for p in sorted(c, key=lambda p: est_cost(p, rt, 1))[:n]]
-    int_full = cheapest("interp-ao", ("hand",), 1 if quick else 6)
-    int_some = cheapest("interp-ao", ("hand", "mini"), 3 if quick else 16)
-    as_some = cheapest("interp-as", ("hand", "mini", "repo"), 3 if quick else 1000)
+    int_full = cheapest("interp-ao", ("hand",), 1 if quick else 4)
+    int_some = cheapest("interp-ao", ("hand", "mini"), 3 if quick else 14)
+    as_some = cheapest("interp-as", ("hand", "mini", "repo"), 3 if quick else 30)
 
     def add(p, rt, k, js, prio, cap):
         c = est_cost(p, rt, k)
@@ -454,14 +597,14 @@ def make_jobs(progs, tier, rng):
                     full = 5 if hand else 1
                     add(p, "exe", k, js_for(rng, k, full, 2 if hand else 1), 0 if (k <= 5 and hand) or k == 1 else 1, cap_exe)
                 else:
-                    add(p, "exe", k, js_for(rng, k, 8 if hand else 3, 6 if hand else 3), 0 if k <= 8 else 1, cap_exe)
+                    add(p, "exe", k, js_for(rng, k, 8 if hand else 2, 6 if hand else 2), 0 if k <= 8 else 1, cap_exe)
             if "interp-ao" in p["est"]:
                 if id(p) in int_full:
                     add(p, "interp-ao", k, js_for(rng, k, 5 if quick else 6, 1 if quick else 4), 0 if k <= 5 else 1, cap_int)
                 elif id(p) in int_some and k > 1:
                     add(p, "interp-ao", k, js_for(rng, k, 0, 1 if quick else 2), 1, cap_int)
-                elif k >= (17 if quick else 8):
-                    add(p, "interp-ao", k, js_for(rng, k, 0, 1 if quick else 2), 1, cap_int)
+                elif k >= 17:
+                    add(p, "interp-ao", k, js_for(rng, k, 0, 1), 1, cap_int)
             if "interp-as" in p["est"] and k >= (100 if quick else 50) and id(p) in as_some:
                 add(p, "interp-as", k, js_for(rng, k, 0, 1 if quick else 2), 1, cap_int)
         if "interp-as" in p["est"] and quick:       # the compile phase under collection as well (cheap at k = 1000)
@@ -573,6 +716,11 @@ def run(rep, tier):
             failures.append({"p": j["p"], "route": j["route"], "sched": (j["k"], j["j"]), "kind": c[0], "detail": c[1]})
     t_run = time.time() - t_start - t_gen - t_prep
 
+    # ---- interactive sessions with `#int gc' (fintFreeJunk + collection between top-level statements)
+    t1 = time.time()
+    gl_stats = gloop_stage(rep, tools, rng, tier, base)
+    t_gloop = time.time() - t1
+
     # ---- shrink + report
     report_failures(rep, tools, failures, base, tier)
 
@@ -601,9 +749,10 @@ def run(rep, tier):
                     "schedules_skipped_too_slow(est)": len(too_slow),
                     "schedules_not_admitted(budget)": not_admitted, "schedules_cut_by_deadline": late,
                     "timeouts_rechecked": ["%s %s %d:%d" % (j["p"]["name"], j["route"], j["k"], j["j"]) for j in suspects],
+                    "interactive_sessions(#int gc)": gl_stats,
                     "hook_sanity": hook_res},
                 timings_s={"generate": round(t_gen, 1), "build+baseline+calibrate": round(t_prep, 1),
-                           "schedule_runs": round(t_run, 1),
+                           "schedule_runs": round(t_run, 1), "gloop_sessions": round(t_gloop, 1),
                            "longest_run": round(max(hist_cost), 1) if hist_cost else 0})
     if len(usable) * 2 < len(progs) and not rep.violations and not rep.known:
         rep.violation("more than half of the programs were unusable (do not build / disagree with their oracle before any "
@@ -624,7 +773,9 @@ def run(rep, tier):
         "Aldor libraries libaldor / libaxllib (.al, .a) are the pre-built ones of /repo",
         "hand family oracle: tools/c09_family.py (exact Python arithmetic); MiniAldor oracle: coq/Mini (C01)",
         "repository test programs have no oracle: the unforced run, checked to be reproducible, is the reference",
-        "fintFreeJunk (interpreter stack cleaning) is reachable only from the interactive `#int gc' command and is not exercised")
+        "fintFreeJunk (interpreter stack cleaning) is reachable only from the interactive `#int gc' command: exercised by "
+        "-gloop sessions with `#int gc' between the statements; transcripts are compared after removing the collector's own "
+        "report lines and the Comp/Interp timing figures")
 
 
 # ------------------------------------------------------------------ corpus of past failures
@@ -734,14 +885,17 @@ def shrink_mini(tools, p, route, sched, base, budget_s):
     return tuple(best)
 
 
-def smallest_k(tools, p, route, sched, budget_s):
-    """Smallest k (and its first j) below the found one that still fails; the k = 1 run costs the most,
-    so candidates whose estimated cost exceeds the budget are not tried."""
+def smallest_k(tools, p, route, sched, budget_s, est=None):
+    """Smallest affordable k (and its first j) below the found one that still fails.  Small k costs the most
+    (est = (t0, c): one run at k takes about t0 + c / k seconds), so candidates estimated above the budget are
+    not tried: the result is the smallest failing k among those that could be run."""
     t0 = time.time()
     k0 = sched[0]
-    for k in [1, 2, 3, 4, 5, 6, 7, 8, 10, 13, 17, 25, 32, 50, 64, 100, 128, 200, 256, 333, 500]:
+    for k in [1, 2, 3, 4, 5, 6, 7, 8, 10, 13, 17, 25, 32, 50, 64, 100, 128, 200, 256, 333, 500, 1000]:
         if k >= k0 or time.time() - t0 > budget_s:
             break
+        if est and est[0] + est[1] / k > budget_s / 2:
+            continue
         js = list(range(k)) if k <= 8 else sorted({0, 1, k // 3, k // 2, k - 1})
         f = fails_under(tools, p, route, [(k, j) for j in js], max(30, budget_s - (time.time() - t0)))
         if f:
@@ -775,13 +929,13 @@ def report_failures(rep, tools, failures, base, tier):
         if sched is not None and p["family"] in ("hand", "mini") and shrunk < (2 if quick else 6) \
                 and not rep.finding_key_known(key_of(p, route, sched)):
             shrunk += 1
-            budget = 45 if quick else 600
+            budget = 30 if quick else 600
             try:
                 if p["family"] == "hand":
                     q, s = shrink_hand(tools, p, route, sched, base, budget)
                 else:
                     q, s = shrink_mini(tools, p, route, sched, base, budget)
-                s = smallest_k(tools, q, route, s, budget)
+                s = smallest_k(tools, q, route, s, budget, f["p"].get("est", {}).get(route))
                 r = tools.run(route, q, sched=s, timeout=300)
                 c = classify(r, q["base"][route])
                 if c:
@@ -823,6 +977,20 @@ def emit(rep, tools, p, route, sched, kind, detail, note, n_sched):
 def replay(path):
     obj = json.load(open(path))
     rp = obj.get("replay", obj)
+    if rp.get("route") == "gloop":
+        tools = Tools()
+        d = C.scratch("c09r")
+        ref = gloop_run(tools, rp["session_plain"], d)
+        sched = (int(rp["k"]), int(rp["j"])) if int(rp.get("k", 0)) else None
+        r = gloop_run(tools, rp["session"], d, sched=sched, timeout=1800)
+        c = classify(r, ref)
+        print("--- plain session\n%s\n--- with #int gc%s\n%s" % (ref["out"].decode("utf-8", "replace")[:3000],
+              " under ALDOR_VERIF_GC=%d:%d" % sched if sched else "", r["out"].decode("utf-8", "replace")[:3000]))
+        if c:
+            print("DIFFERS: %s: %s" % c)
+            return 1
+        print("same behaviour")
+        return 0
     if "src" not in rp:
         print("replay: nothing to run (%s)" % obj.get("what"))
         return 2
